@@ -562,9 +562,55 @@ class Evaluator:
     def load(self, env: Env, n: ast.Subscript) -> Any:
         base = n.value
         prefix: tuple = ()
+        if getattr(self, "compose_rows", False) and isinstance(
+                n.slice, ast.Tuple) and isinstance(
+                base, ast.Name) and any(
+                isinstance(x, ast.Slice) and x.lower is None
+                and x.upper is None and x.step is None
+                for x in n.slice.elts) and not any(
+                isinstance(x, ast.Slice) and not (
+                    x.lower is None and x.upper is None and x.step is None)
+                for x in n.slice.elts):
+            # m[:, j]: a view of one column (row); its elements are cells
+            # of m - composed when the view is indexed
+            nm = base.id
+            bnd = env.vars.get(nm)
+            if isinstance(bnd, tuple) and bnd and bnd[0] == "array":
+                nm = bnd[1]
+            elif bnd is not None:
+                raise Unsupported("view of a bound name", n)
+            return ("view", nm, tuple(
+                None if isinstance(x, ast.Slice) else self.num(env, x)
+                for x in n.slice.elts))
         if isinstance(base, ast.Name):
             name = base.id
             bound = env.vars.get(name)
+            if isinstance(bound, tuple) and bound and bound[0] == "view":
+                got = list(self.index(env, n.slice))
+                full = []
+                for x in bound[2]:
+                    if x is None:
+                        if not got:
+                            raise Unsupported("partial index of a view", n)
+                        full.append(got.pop(0))
+                    else:
+                        full.append(x)
+                if got:
+                    raise Unsupported("too many indices for a view", n)
+                name, idx0 = bound[1], tuple(full)
+                k0 = (name, idx0)
+                if k0 in env.stores:
+                    return env.stores[k0]
+                for (an, ai) in env.stores:
+                    if an == name and ai not in (("fill",), ("summary",)) \
+                            and len(ai) == len(idx0) and not _distinct(
+                            ai, idx0):
+                        raise Unsupported("load through a view may alias "
+                                          "an earlier store", n)
+                if (name, ("summary",)) in env.stores:
+                    raise Unsupported("load through a view from a "
+                                      "loop-written array", n)
+                return Poly.atom(("cell", name, idx0))
             if isinstance(bound, tuple) and bound and bound[0] == "array":
                 name = bound[1]
             elif isinstance(bound, tuple) and not (
